@@ -75,21 +75,21 @@ func readComcastEbp(data []byte) (ebp *comcastEbp, err error) {
 		return nil, gots.ErrNoPayload
 	}
 
-	index := uint8(0)
+	index := 0
 	// has reports whether n more bytes can be read at index
-	has := func(n int) bool { return int(index)+n <= len(data) }
+	has := func(n int) bool { return index+n <= len(data) }
 
 	ebp.DataFieldTag = data[index]
-	index += uint8(1)
+	index += 1
 
 	ebp.DataFieldLength = data[index]
-	index += uint8(1)
+	index += 1
 
 	// Check if the data is as advertised
 	if ebp.DataFieldLength > 0 {
 		if len(data) >= 3 {
 			ebp.DataFlags = data[index]
-			index += uint8(1)
+			index += 1
 		} else {
 			return nil, gots.ErrInvalidEBPLength
 		}
@@ -100,7 +100,7 @@ func readComcastEbp(data []byte) (ebp *comcastEbp, err error) {
 			return nil, gots.ErrInvalidEBPLength
 		}
 		ebp.ExtensionFlags = data[index]
-		index += uint8(1)
+		index += 1
 	}
 
 	if ebp.SapFlag() {
@@ -108,7 +108,7 @@ func readComcastEbp(data []byte) (ebp *comcastEbp, err error) {
 			return nil, gots.ErrInvalidEBPLength
 		}
 		ebp.SapType = data[index]
-		index += uint8(1)
+		index += 1
 	}
 
 	if ebp.GroupingFlag() {
@@ -117,7 +117,7 @@ func readComcastEbp(data []byte) (ebp *comcastEbp, err error) {
 		}
 		group := data[index]
 		ebp.Grouping = append(ebp.Grouping, group)
-		index += uint8(1)
+		index += 1
 	}
 
 	if ebp.TimeFlag() {
@@ -125,13 +125,13 @@ func readComcastEbp(data []byte) (ebp *comcastEbp, err error) {
 			return nil, gots.ErrInvalidEBPLength
 		}
 		ebp.TimeSeconds = binary.BigEndian.Uint32(data[index : index+4])
-		index += uint8(4)
+		index += 4
 
 		ebp.TimeFraction = binary.BigEndian.Uint32(data[index : index+4])
-		index += uint8(4)
+		index += 4
 	}
 
-	if end := int(ebp.DataFieldLength) + 2; int(index) < end {
+	if end := int(ebp.DataFieldLength) + 2; index < end {
 		if end > len(data) {
 			return nil, gots.ErrInvalidEBPLength
 		}
